@@ -10,7 +10,8 @@
        cancellation after an inexact division, more than 30 rounds)
    120 diagnostics: [robust; done; rounds]
    101-106 laws on the Go results (105: realCapability reserves the other queues' guarantees,
-       106: the same per sibling group of the hierarchical capacity plugin) *)
+       106: the same per sibling group of the hierarchical capacity plugin,
+       107: the real loop finished within rounds_bound rounds) *)
 From Coq Require Import QArith ZArith List Bool.
 From V Require Import Base.Codec C12.Model C12.Laws.
 Import ListNotations.
@@ -167,6 +168,9 @@ Definition entry (sel : Z) (toks : list Z) : list Z :=
            | Some (D, _, _, os) => eBool (law_weight D os) | None => bad_input end
   | 105 => match run_dec dLawIn toks with
            | Some (D, total, tg, os) => eBool (law_reserve false D total tg os) | None => bad_input end
+  | 107 => match run_dec (let* D := dZ in let* big := dZ in let* r := dZ in let* ws := dList dZ in
+                          ret (D, big, r, ws)) toks with
+           | Some (D, big, r, ws) => eBool (law_rounds D big r ws) | None => bad_input end
   | 106 => match run_dec dLawIn toks with
            | Some (D, total, tg, os) => eBool (law_reserve true D total tg os && forallb (fun o =>
                  alldims D (fun j => Qle_bool (val0 (cnth (o_gua o) j)) (val0 (cnth (o_des o) j) + slack))) os)
